@@ -321,6 +321,8 @@ func runC11(c *Ctx, r *Report) {
 		}
 	}
 
+	r.Rule("C11/as-options-wiring", "each on-x list of a platform definition reaches exactly the hook of its name: a list that types a redacted secret blind is never replayed at a prompt that echoes", 7)
+	checkAsOptionsWiring(c, r, "C11/as-options-wiring")
 	r.Rule("C11/T7", "the input of a platform step that may be written redacted, and the step's definition map, never reach a logging sink (directly or inside an error that is logged)", 1)
 	checkPlatformStepNotLogged(c, r, "C11/T7", gates, isSink)
 
